@@ -108,6 +108,9 @@ class _Capture(io.TextIOWrapper):
         return self.buffer.getvalue().decode('utf-8', errors='surrogateescape')
 
 
+NO_STDOUT = object()      # run_main(stdout=NO_STDOUT): the process has no standard output (sys.stdout is None)
+
+
 def run_main(argv, order='sorted', os_log=None, stdout=None, open_fn=None, remove_hook=None, pt=None, isolate=False):
     """
     Call the real main() with argv.  Returns Result.  `order` is the directory-listing order answer,
@@ -130,7 +133,7 @@ def run_main(argv, order='sorted', os_log=None, stdout=None, open_fn=None, remov
     pt.os = proxy
     if open_fn is not None:
         pt.open = open_fn
-    out = stdout if stdout is not None else _Capture('strict')
+    out = None if stdout is NO_STDOUT else (stdout if stdout is not None else _Capture('strict'))
     err = _Capture('backslashreplace')
     sys.argv = ['peltool.py'] + list(argv)
     sys.stdout, sys.stderr = out, err
